@@ -42,11 +42,16 @@ Definition oeqb {A} (eqb : A -> A -> bool) (a b : option A) : bool :=
   | _, _ => false
   end.
 
+(* key equality; written with `if` so that evaluation stops at the first differing field (cheap fields first) *)
 Definition entry_eqb (a b : entry) : bool :=
-  oeqb Z.eqb (e_process a) (e_process b) && oeqb Z.eqb (e_process_sweeper a) (e_process_sweeper b) &&
-  oeqb Z.eqb (e_time a) (e_time b) && oeqb Z.eqb (e_level a) (e_level b) &&
-  oeqb Z.eqb (e_iter a) (e_iter b) && oeqb Z.eqb (e_sweep a) (e_sweep b) &&
-  oeqb String.eqb (e_type a) (e_type b) && oeqb Z.eqb (e_num_restarts a) (e_num_restarts b).
+  if oeqb Z.eqb (e_process a) (e_process b) then
+  if oeqb Z.eqb (e_iter a) (e_iter b) then
+  if oeqb Z.eqb (e_num_restarts a) (e_num_restarts b) then
+  if oeqb Z.eqb (e_level a) (e_level b) then
+  if oeqb Z.eqb (e_sweep a) (e_sweep b) then
+  if oeqb Z.eqb (e_process_sweeper a) (e_process_sweeper b) then
+  if oeqb String.eqb (e_type a) (e_type b) then oeqb Z.eqb (e_time a) (e_time b)
+  else false else false else false else false else false else false else false.
 
 Definition dict (V : Type) := list (entry * V).
 
@@ -365,7 +370,8 @@ Definition regularb (d : dict Z) : bool :=
 Definition markedb (d : dict Z) (t : option Z) : bool :=
   existsb (fun m => is_marker (fst m) && ztruthy (snd m) && oeqb Z.eqb (e_time (fst m)) t &&
      negb (existsb (fun m' => is_marker (fst m') && oeqb Z.eqb (e_time (fst m')) (e_time (fst m)) && (nr (fst m) <? nr (fst m'))) d)) d.
-Definition same_tt (a b : entry) : bool := oeqb Z.eqb (e_time a) (e_time b) && oeqb String.eqb (e_type a) (e_type b).
+Definition same_tt (a b : entry) : bool :=
+  if oeqb String.eqb (e_type a) (e_type b) then oeqb Z.eqb (e_time a) (e_time b) else false.
 Definition check_accepted (acc : list entry) (d : dict Z) : bool :=
   regularb d &&
   forallb (fun kv => is_marker (fst kv) || negb (memb (fst kv) acc) ||
@@ -375,6 +381,30 @@ Definition check_accepted (acc : list entry) (d : dict Z) : bool :=
                      markedb d (e_time (fst kv))) d &&
   forallb (fun kv => is_marker (fst kv) || negb (memb (fst kv) acc) || negb (markedb d (e_time (fst kv)))) d.
 
+
+(* the same conditions evaluated economically (membership in `acc` computed once per record, markers extracted
+   once, lazy connectives); StatsProofs.check_accepted_fast_sound: it implies check_accepted *)
+Definition markedb_m (markers : dict Z) (t : option Z) : bool :=
+  existsb (fun m => if ztruthy (snd m) then
+                      if oeqb Z.eqb (e_time (fst m)) t then
+                        negb (existsb (fun m' => if oeqb Z.eqb (e_time (fst m')) (e_time (fst m)) then nr (fst m) <? nr (fst m') else false) markers)
+                      else false
+                    else false) markers.
+Definition check_accepted_fast (acc : list entry) (d : dict Z) : bool :=
+  let fd := map (fun kv => (memb (fst kv) acc, kv)) d in
+  let markers := filter (fun kv => is_marker (fst kv)) d in
+  if regularb d then
+    forallb (fun fkv : bool * (entry * Z) =>
+       let kv := snd fkv in
+       if is_marker (fst kv) then true
+       else if fst fkv then
+         if forallb (fun kv' => if same_tt (fst kv') (fst kv) then nr (fst kv') <=? nr (fst kv) else true) d
+         then negb (markedb_m markers (e_time (fst kv))) else false
+       else
+         if existsb (fun fkv' : bool * (entry * Z) =>
+                       if fst fkv' then (if same_tt (fst (snd fkv')) (fst kv) then nr (fst kv) <? nr (fst (snd fkv')) else false) else false) fd
+         then true else markedb_m markers (e_time (fst kv))) fd
+  else false.
 
 (* ------------------------------------------------------------------ comparators used by the generated cases
    (decide Leibniz equality: StatsProofs.dict_eqb_spec, items_eqb_spec, types_eqb_spec) *)
